@@ -10,6 +10,7 @@ def run(chk, tier, seed):
     core.run_core(chk, "C20", tier, seed)
     trusted = list(chk.trusted)
     static_facts.statics_obligations(chk)
+    static_facts.brand_obligations(chk)
     chk.trusted = trusted + [t for t in chk.trusted if t not in trusted]
 
 
